@@ -28,6 +28,8 @@ package mask
 //@     ensures isnil(result) || fresh(result) || sameblock(result, dst)
 
 // maskSection: one asterisk per rune up to max_count, the replace word, or nothing.
+// In mask mode the number of asterisks is exactly min(runes of the section,
+// max_count) - the rune count being that of src[begin:end], counted once.
 
 //@ func (*Mask).maskSection
 //@   requires 0 <= begin && begin <= end && end <= len(src)
@@ -35,5 +37,12 @@ package mask
 //@   ensures m.mode == modeCut ==> result == dst
 //@   ensures m.mode == modeReplace ==> len(result) == len(dst) + len(m.ReplaceWord)
 //@   ensures m.mode == modeMask && m.MaxCount > 0 ==> len(result) - len(dst) <= m.MaxCount
+//@   ghost rc int = 0
+//@   ensures m.mode == modeMask ==> len(result) - len(dst) == ite(m.MaxCount > 0, min(rc, m.MaxCount), rc)
+//@   callee RuneCount(p) (r)
+//@     requires sameblock(p, src) && off(p) == off(src) + begin && len(p) == end - begin
+//@     pure
+//@     ensures 0 <= r && r <= len(p)
+//@     set rc := r
 //@   ensures m.mode == modeMask ==> len(dst) <= len(result) && len(result) - len(dst) <= end - begin
 //@   loop 1 invariant 0 <= i && i <= n && len(dst) == old(len(dst)) + i && n <= end - begin && (m.MaxCount > 0 ==> n <= m.MaxCount)
